@@ -111,16 +111,87 @@ CHECKSUM = Contract(
     witness_terms=wt_bytes([('k', 16), ('y', 16)]),
 )
 
+# ----------------------------------------------------------------------------- what goes into the WRMHEADER template
+class Utf16:
+    """xml.encode('utf-16'): byte order mark FF FE, then the text"""
+    py_types = ('bytes',)
+
+    def __init__(self, rendered):
+        self.rendered = rendered
+
+    def getitem(self, eng, idx):
+        if idx in (0, 1):
+            return (0xFF, 0xFE)[idx]
+        raise Unsupported('utf-16 byte')
+
+    def getslice(self, eng, lo, hi):
+        if lo == 2 and hi is None:
+            return self.rendered
+        raise Unsupported('utf-16 slice')
+
+
+def render_template(eng, e, a, kw):
+    return Obj('Rendered', {'template': a[0], 'context': dict(kw)})
+
+
+def key_tuple(i, computed):
+    return Obj('KeyTuple', {'KID': Obj('KeyMaterial', {'raw': BSeq(bv(f'k{i}_', 16)), 'hex': Opaque(f'kid{i}hex')}),
+                            'KEY': Obj('KeyMaterial', {'raw': BSeq(bv(f'y{i}_', 16))}), 'ALG': 'AESCTR', 'computed': computed})
+
+
+def wrmheader(nkeys, default, version):
+    def env(w):
+        keys = {f'kid{i}': key_tuple(i, computed=(i % 2 == 0)) for i in range(nkeys)}
+        return {'self': Obj('PlayReady', {'security_level': 150, 'header_version': version, 'version': None,
+                                          'TEST_LA_URL': Opaque('test_la_url')}),
+                'la_url': None, 'default_kid': f'KID{default}', 'keys': keys, 'custom_attributes': None,
+                '__keys__': keys}
+    kid = lambda i: f'__keys__["kid{i}"].KID.raw'
+    key = lambda i: f'__keys__["kid{i}"].KEY.raw'
+    ens = [('template', f"result.template == 'drm/wrmheader{int(version * 10)}.xml'"),
+           ('default_checksum', f"bytes_eq(result.context['checksum'], checksum_spec({kid(default)}, {key(default)}))"),
+           ('default_kid', f"bytes_eq(result.context['default_kid'], guid_le({kid(default)})) and "
+                           f"bytes_eq(result.context['default_key'], {key(default)})"),
+           ('all_keys_listed', f"length(result.context['kids']) == {nkeys}")]
+    for i in range(nkeys):
+        ens.append((f'key{i}', f"bytes_eq(result.context['kids'][{i}]['kid'], guid_le({kid(i)})) and "
+                               f"bytes_eq(result.context['kids'][{i}]['checksum'], checksum_spec({kid(i)}, {key(i)})) and "
+                               f"result.context['kids'][{i}]['alg'] == 'AESCTR'"))
+    return Contract(
+        key=f'{PR}:PlayReady.generate_wrmheader', variant=f'{nkeys}keys-default{default}-v{version}', props=['C11'],
+        env=env,
+        models={'base64.b64encode': lambda eng, e, a, kw: Opaque('b64'),
+                'la_url.format': lambda eng, e, a, kw: Opaque('la_url'),
+                'render_template': render_template,
+                're.sub': lambda eng, e, a, kw: a[2],
+                'xml.encode': lambda eng, e, a, kw: Utf16(eng.lookup('xml'))},
+        ensures=ens,
+        canaries=[f"bytes_eq(result.context['checksum'], checksum_spec({kid((default + 1) % nkeys)}, {key((default + 1) % nkeys)}))"
+                  if nkeys > 1 else 'False'],
+        witness_terms=wt_bytes([(f'k{i}_', 16) for i in range(nkeys)] + [(f'y{i}_', 16) for i in range(nkeys)]),
+    )
+
+
+WRMHEADER = [wrmheader(1, 0, 4.0), wrmheader(2, 0, 4.0), wrmheader(3, 1, 4.1), wrmheader(2, 1, 4.2)]
+CHECKSUM_INLINE = Contract(key=f'{PR}:PlayReady.generate_checksum', variant='inline', props=[], inline=True)
+CHECKSUM.applies = lambda frame: False                 # call sites analyse the real body
+HEX_TO_LE_RAW.applies = lambda fr: fr.get('raw') is True and isinstance(fr.get('guid'), BSeq) and len(fr['guid'].items) == 16
+HEX_TO_LE_RAW_BAD.applies = lambda fr: False
+HEX_TO_LE_TEXT.applies = lambda fr: fr.get('raw') is False
+
 GROUP = Group(
     name='playready', world=world,
-    contracts=[HEX_TO_LE_RAW, HEX_TO_LE_RAW_BAD, HEX_TO_LE_TEXT] + CONTENT_KEY + [CHECKSUM],
+    contracts=[HEX_TO_LE_RAW, HEX_TO_LE_RAW_BAD, HEX_TO_LE_TEXT] + CONTENT_KEY + [CHECKSUM] + WRMHEADER + [CHECKSUM_INLINE],
     assumptions=[
         'C11: SHA-256 and AES-ECB are uninterpreted functions of exactly their input bytes (pycryptodome trusted)',
         'C11: binascii.b2a_hex / a2b_hex are mutually inverse nibble splits; str(x, "ascii") keeps the characters',
+        'C11: generate_wrmheader: base64 / str.format / re.sub / utf-16 encoding are opaque (the rendered document is not '
+        'inspected); render_template receives exactly the context the contract describes',
         'C11: key ids are 16 bytes, key seeds 30 or 33 bytes in the proved variants (the code truncates to 30; the '
         'length checks are proved by the 29-byte and 15-byte variants)',
     ],
     trusted=['pyvc/models/bytesmodel.py (fixed-length byte / hex strings as bit-vector lists)'],
-    not_covered=['WRMHEADER XML generation (Jinja) and its re-parse, generate_pro / parse_pro framing, ClearKey endpoint, '
+    not_covered=['the WRMHEADER XML text (Jinja template; generate_wrmheader is proved up to the context it hands to the '
+                 'template: default key id / key / checksum, per-key list, template name) and its re-parse, generate_pro / parse_pro framing, ClearKey endpoint, '
                  'ContentProtection templates, generate_manifest_context location mapping'],
 )
